@@ -1,10 +1,12 @@
 package checks
 
 import (
+	"crypto/tls"
 	"fmt"
 	"sort"
 	"strings"
 	"sync"
+	"sync/atomic"
 	"testing"
 
 	"github.com/datastax/cql-proxy/proxycore"
@@ -28,9 +30,28 @@ type c15Op struct {
 type c15Case struct {
 	Counter *uint64 `json:"counter,omitempty"` // place the plan counter here first (hook)
 	Ops     []c15Op `json:"ops"`
+	SNI     bool    `json:"sni_endpoints,omitempty"` // all hosts share one address, keys differ
+}
+
+// c15SNI selects the kind of endpoint the hosts of the current case have: plain address endpoints, or endpoints
+// that all share one address and differ only in their key (what an Astra bundle produces: every node is reached
+// through the same SNI proxy address). Set at the start of every case; cases run one at a time.
+var c15SNI atomic.Bool
+
+type c15SNIEndpoint struct{ id int }
+
+func (e c15SNIEndpoint) String() string         { return e.Key() }
+func (e c15SNIEndpoint) Addr() string           { return "sni-proxy.example:29042" }
+func (e c15SNIEndpoint) IsResolved() bool       { return false }
+func (e c15SNIEndpoint) TLSConfig() *tls.Config { return nil }
+func (e c15SNIEndpoint) Key() string {
+	return fmt.Sprintf("sni-proxy.example:29042:host-%04d-4000-8000-000000000000", e.id)
 }
 
 func c15Host(i int) *proxycore.Host {
+	if c15SNI.Load() {
+		return &proxycore.Host{Endpoint: c15SNIEndpoint{id: i}, DC: "dc1"}
+	}
 	return &proxycore.Host{Endpoint: proxycore.NewEndpoint(fmt.Sprintf("127.0.0.%d:9042", i+1)), DC: "dc1"}
 }
 
@@ -51,7 +72,7 @@ func (p *c15Plan) next() *evid.Fail {
 		p.done = true
 		return nil
 	}
-	k := h.Key()
+	k := h.Endpoint.Key() // identity = the endpoint's key, not Host.Key(), which is code under test
 	if p.done {
 		return evid.Failf("plan-after-exhaustion", "plan yielded %s after reporting exhaustion", k)
 	}
@@ -88,6 +109,8 @@ func keys(m map[string]bool) []string {
 }
 
 func c15Check(c c15Case) *evid.Fail {
+	c15SNI.Store(c.SNI)
+	defer c15SNI.Store(false)
 	lb := proxycore.NewRoundRobinLoadBalancer()
 	wrap, skipRotation := false, false
 	if c.Counter != nil {
@@ -125,21 +148,21 @@ func c15Check(c c15Case) *evid.Fail {
 			booted = true
 			var hs []*proxycore.Host
 			for _, i := range op.Set {
-				if !members[host(i).Key()] {
+				if !members[host(i).Endpoint.Key()] {
 					hs = append(hs, host(i))
-					members[host(i).Key()] = true
+					members[host(i).Endpoint.Key()] = true
 				}
 			}
 			lb.OnEvent(&proxycore.BootstrapEvent{Hosts: hs})
 		case "add":
-			if members[host(op.Host).Key()] {
+			if members[host(op.Host).Endpoint.Key()] {
 				continue // the cluster never announces a present host again
 			}
-			members[host(op.Host).Key()] = true
+			members[host(op.Host).Endpoint.Key()] = true
 			// a fresh Host object, as the cluster creates one per refresh
 			lb.OnEvent(&proxycore.AddEvent{Host: c15Host(op.Host)})
 		case "remove":
-			delete(members, host(op.Host).Key())
+			delete(members, host(op.Host).Endpoint.Key())
 			lb.OnEvent(&proxycore.RemoveEvent{Host: c15Host(op.Host)})
 		case "plan":
 			plans = append(plans, newPlan())
@@ -363,7 +386,7 @@ func c15ConcCheck(c c15Conc) *evid.Fail {
 	var hs []*proxycore.Host
 	for i := 0; i < c.Hosts; i++ {
 		hs = append(hs, c15Host(i))
-		universe[hs[i].Key()] = true
+		universe[hs[i].Endpoint.Key()] = true
 	}
 	lb.OnEvent(&proxycore.BootstrapEvent{Hosts: append([]*proxycore.Host(nil), hs...)})
 	present := make([]bool, c.Hosts)
@@ -395,15 +418,15 @@ func c15ConcCheck(c c15Conc) *evid.Fail {
 					if h == nil {
 						break
 					}
-					if !universe[h.Key()] {
-						fails <- evid.Failf("plan-nonmember", "concurrent plan yielded unknown host %s", h.Key())
+					if !universe[h.Endpoint.Key()] {
+						fails <- evid.Failf("plan-nonmember", "concurrent plan yielded unknown host %s", h.Endpoint.Key())
 						return
 					}
-					if seen[h.Key()] {
-						fails <- evid.Failf("plan-duplicate-concurrent", "a plan yielded %s twice while membership changed concurrently", h.Key())
+					if seen[h.Endpoint.Key()] {
+						fails <- evid.Failf("plan-duplicate-concurrent", "a plan yielded %s twice while membership changed concurrently", h.Endpoint.Key())
 						return
 					}
-					seen[h.Key()] = true
+					seen[h.Endpoint.Key()] = true
 				}
 			}
 		}()
@@ -446,7 +469,7 @@ func c15ConcCheck(c c15Conc) *evid.Fail {
 			<-start
 			for i := 0; i < total/c.Workers; i++ {
 				if h := lb.NewQueryPlan().Next(); h != nil {
-					firsts[w][h.Key()]++
+					firsts[w][h.Endpoint.Key()]++
 				}
 			}
 		}(w)
@@ -460,7 +483,7 @@ func c15ConcCheck(c c15Conc) *evid.Fail {
 		}
 	}
 	for i, p := range present {
-		k := c15Host(i).Key()
+		k := c15Host(i).Endpoint.Key()
 		if p && sum[k] != total/live {
 			return evid.Failf("concurrent-first-choice-imbalance", "%d plans over %d live hosts from %d goroutines: first choices %v (want %d each)", total, live, c.Workers, sum, total/live)
 		}
@@ -505,7 +528,14 @@ func TestC15(t *testing.T) {
 	// (2) random long histories
 	runProp(t, rec, "history", perShard(evid.Pick(6000, 800000)), func(rt *rapid.T) c15Case {
 		c := c15Gen(rt)
+		c.SNI = rapid.IntRange(0, 3).Draw(rt, "sni") == 0
 		key, labels := c15Classify(c)
+		if c.SNI {
+			labels = append(labels, "endpoints:shared-address-distinct-keys")
+			if key != "" {
+				key = "sni:" + key
+			}
+		}
 		rec.Case(key, labels...)
 		rec.Sample(c)
 		return c
